@@ -187,6 +187,12 @@ def evaluate_combos(case):
     n1 = [[names[(0, i, j)] for j in range(len(l))] for i, l in enumerate(b1)]
     n2 = [[names[(1, i, j)] for j in range(len(l))] for i, l in enumerate(b2)]
     s1, s2 = [sum(l) for l in b1], [sum(l) for l in b2]
+    plain = manager == "contents" and case.get("items") == "values"
+    if plain:
+        # the items are plain numbers (their own value): equal values are indistinguishable, so pairings are distinct by value contents
+        n1, n2 = [list(l) for l in b1], [list(l) for l in b2]
+        table = None
+        labels.append("items=plain-numbers")
     if manager == "sums":
         o = sut.all_combinations("sums", s1, s2)
     else:
@@ -208,7 +214,7 @@ def evaluate_combos(case):
         if manager == "sums":
             got[tuple(sorted(sums))] += 1
         else:
-            if [sum(table[x] for x in l) for l in lists] != list(sums):
+            if [sum((table[x] if table is not None else x) for x in l) for l in lists] != list(sums):
                 fails.append(Failure(f"{PROP}/combos/contents/sums-do-not-describe-contents", {"sums": sut.jsonable(sums), "lists": lists}))
             got[tuple(sorted(tuple(sorted(l)) for l in lists))] += 1
     dup = [kk for kk, v in got.items() if v > 1]
@@ -249,7 +255,10 @@ def combos_cases(draw):
             if i != j:
                 bins[i], bins[j] = [a + b], [a, b]
         return bins
-    return {"kind": "combos", "manager": manager, "bins1": array(), "bins2": array()}
+    case = {"kind": "combos", "manager": manager, "bins1": array(), "bins2": array()}
+    if manager == "contents" and draw(st.booleans()):
+        case["items"] = "values"
+    return case
 
 
 def combos_scope(tier):
@@ -263,7 +272,10 @@ def combos_scope(tier):
                     idx += 1
                     if k == 3 and tier == "quick" and (idx + env.seed()) % 10:
                         continue
-                    yield {"kind": "combos", "manager": manager, "bins1": [list(x) for x in b1], "bins2": [list(x) for x in b2]}
+                    case = {"kind": "combos", "manager": manager, "bins1": [list(x) for x in b1], "bins2": [list(x) for x in b2]}
+                    if manager == "contents" and idx % 4 < 2:
+                        case["items"] = "values"
+                    yield case
 
 
 # ------------------------------------------------------------------ dispatch
